@@ -38,6 +38,7 @@ type syncParams struct {
 	Threads int   `json:"threads,omitempty"`
 	Iters   int   `json:"iters,omitempty"`
 	Writers []int `json:"writers,omitempty"`
+	Rounds  [][]int `json:"rounds,omitempty"`
 	// elk
 	Scenario string   `json:"scenario,omitempty"`
 	Src      string   `json:"src,omitempty"`
@@ -56,7 +57,7 @@ func (*c25Engine) Property() string { return "C25" }
 func (*c25Engine) Generate(seed uint64, tier string) *Case {
 	r := NewRand(seed)
 	var p syncParams
-	switch k := r.Intn(22); {
+	switch k := r.Intn(24); {
 	case k < 6:
 		p.Family = "api-chan"
 		p.Cap = r.Intn(4)
@@ -131,10 +132,19 @@ func (*c25Engine) Generate(seed uint64, tier string) *Case {
 			}
 			p.Clients = append(p.Clients, ops)
 		}
-	case k < 11:
+	case k < 11, k >= 22:
 		p.Family = "api-wg"
 		p.Threads = r.Range(1, 4)
 		p.Iters = r.Range(1, 3)
+		// the group is used for several rounds; a waiter either waits for good (-1) or with a
+		// context that the main task cancels after that many of its steps (99: never)
+		for round, n := 0, r.Range(1, 3); round < n; round++ {
+			var ws []int
+			for w, m := 0, r.Range(1, 3); w < m; w++ {
+				ws = append(ws, Pick(r, []int{-1, 99, r.Intn(4), r.Intn(8)}))
+			}
+			p.Rounds = append(p.Rounds, ws)
+		}
 	default:
 		p.Family = "elk"
 		genSyncProgram(r, &p)
@@ -494,30 +504,66 @@ func (e *c25Engine) runAPI(t *testing.T, c *Case, p *syncParams) *Verdict {
 			env.Wait(&wg)
 		case "api-wg":
 			w := &value.WaitGroup{}
-			done := 0
+			rounds := p.Rounds
+			if len(rounds) == 0 {
+				rounds = [][]int{{-1, -1}}
+			}
 			n := p.Threads * p.Iters
-			w.Add(n)
-			for i := 0; i < p.Threads; i++ {
-				env.Go(func() {
-					for k := 0; k < p.Iters; k++ {
-						env.Yield()
-						done++
-						w.End()
+			for round, waiters := range rounds {
+				done := 0
+				w.Add(n)
+				var rwg sync.WaitGroup
+				for i := 0; i < p.Threads; i++ {
+					rwg.Add(1)
+					env.Go(func() {
+						defer rwg.Done()
+						for k := 0; k < p.Iters; k++ {
+							env.Yield()
+							done++
+							w.End()
+						}
+					})
+				}
+				cancels := make([]context.CancelFunc, len(waiters))
+				cancelled := make([]bool, len(waiters))
+				for wi, mode := range waiters {
+					ctx, cancel := context.WithCancel(context.Background())
+					cancels[wi] = cancel
+					rwg.Add(1)
+					env.Go(func() {
+						defer rwg.Done()
+						err := value.Undefined
+						if mode < 0 {
+							w.Wait()
+						} else {
+							err = w.WaitCtx(ctx)
+						}
+						switch {
+						case err.IsUndefined():
+							if done != n {
+								fail("round %d: WaitGroup#wait returned after %d of %d end calls", round+1, done, n)
+							}
+						case !value.IsExecutionAborted(err):
+							fail("round %d: WaitGroup#wait returned an unexpected error %s", round+1, err.Inspect())
+						case !cancelled[wi]:
+							fail("round %d: WaitGroup#wait was aborted although its context is live", round+1)
+						}
+					})
+				}
+				for step := 0; step < 8; step++ {
+					for wi, mode := range waiters {
+						if mode == step {
+							cancelled[wi] = true
+							cancels[wi]()
+						}
 					}
-				})
+					env.Yield()
+				}
+				env.Wait(&rwg)
+				for _, cancel := range cancels {
+					cancel()
+				}
 			}
-			waiters := 2
-			for i := 0; i < waiters; i++ {
-				wg.Add(1)
-				env.Go(func() {
-					defer wg.Done()
-					w.Wait()
-					if done != n {
-						fail("WaitGroup#wait returned after %d of %d end calls", done, n)
-					}
-				})
-			}
-			env.Wait(&wg)
 		}
 	})
 	v := &Verdict{Verdict: "ok", Property: "C25", Exec: 1, Res: &res}
